@@ -923,8 +923,14 @@ impl Planner {
     /// for O(1) lookups instead of full scans.
     fn plan_filter(&self, filter: &FilterOp) -> Result<(Box<dyn Operator>, Vec<String>)> {
         // Check zone maps for simple property predicates before scanning
-        // If zone map says "definitely no matches", we can short-circuit
-        if let Some(false) = self.check_zone_map_for_predicate(&filter.predicate) {
+        // If zone map says "definitely no matches", we can short-circuit.
+        // The zone maps describe NODE property columns, so the check is only valid when every
+        // variable of the predicate is a node: directly above a node scan.
+        let over_node_scan =
+            matches!(filter.input.as_ref(), LogicalOperator::NodeScan(scan) if scan.input.is_none());
+        if over_node_scan
+            && let Some(false) = self.check_zone_map_for_predicate(&filter.predicate)
+        {
             // Zone map says no matches possible - return empty result
             let (_, columns) = self.plan_operator(&filter.input)?;
             let schema = self.derive_schema_from_columns(&columns);
